@@ -175,3 +175,17 @@ func (c *VerifCompose) VerifRuleNotes() string {
 
 // VerifResignText classifies a Tell sent from inside GetMove.
 func VerifResignText(text string) string { return VerifGlueMsgClass(text) }
+
+// VerifRuleAccepts: would the FPA rule, with the notes it has now, accept m on p?  (asked of a copy: the live
+// rule's notes are not touched).  true without a rule.
+func (c *VerifCompose) VerifRuleAccepts(p *tak.Position, m tak.Move) (ok bool) {
+	if c.F == nil || c.F.fpa == nil {
+		return true
+	}
+	defer func() {
+		if recover() != nil {
+			ok = false
+		}
+	}()
+	return VerifCloneRule(c.F.fpa).LegalMove(p, m) == nil
+}
